@@ -45,7 +45,7 @@ unsafe impl GlobalAlloc for Counting {
 #[global_allocator]
 static A: Counting = Counting;
 
-// ---------- kind of the injected I/O errors (ekind=other|eof|wouldblock|invalid|pipe); the model knows only "an I/O error" ----------
+// ---------- kind of the injected I/O errors (ekind=other|eof|wouldblock|invalid|pipe|interrupted); the model knows only "an I/O error" ----------
 static FAULT_KIND: std::sync::atomic::AtomicU8 = std::sync::atomic::AtomicU8::new(0);
 fn fault_kind() -> io::ErrorKind {
     match FAULT_KIND.load(Ordering::Relaxed) {
@@ -53,6 +53,7 @@ fn fault_kind() -> io::ErrorKind {
         2 => io::ErrorKind::WouldBlock,
         3 => io::ErrorKind::InvalidData,
         4 => io::ErrorKind::BrokenPipe,
+        5 => io::ErrorKind::Interrupted,
         _ => io::ErrorKind::Other,
     }
 }
@@ -62,7 +63,7 @@ fn fault_kind() -> io::ErrorKind {
 static EOF_FAULT_ARMED: std::sync::atomic::AtomicBool = std::sync::atomic::AtomicBool::new(false);
 static EOF_FAULT_FIRED: std::sync::atomic::AtomicBool = std::sync::atomic::AtomicBool::new(false);
 fn set_fault_kind(name: &str) {
-    FAULT_KIND.store(match name { "eof" => 1, "wouldblock" => 2, "invalid" => 3, "pipe" => 4, _ => 0 }, Ordering::Relaxed);
+    FAULT_KIND.store(match name { "eof" => 1, "wouldblock" => 2, "invalid" => 3, "pipe" => 4, "interrupted" => 5, _ => 0 }, Ordering::Relaxed);
 }
 
 // ---------- fragmenting, failing reader (the model's `src`) ----------
@@ -370,6 +371,49 @@ fn run_case(line: &str) -> String {
             let mut w = sink.clone();
             let r = with_reader(rd_of(&m), data(), |mut r| lzma_rs::xz_compress(&mut r, &mut w).map_err(|_| "io".to_string()));
             finish_line(&sink, r)
+        }
+        "xz_enc_big" => {
+            // xz_compress of n copies of one byte from a synthetic reader into a sink that keeps the total length and the last
+            // 64 bytes only (inputs of 4 GiB and more: sizes that no in-memory case reaches)
+            struct Rep(u64, [u8; 0x10000]);
+            impl Read for Rep {
+                fn read(&mut self, buf: &mut [u8]) -> io::Result<usize> {
+                    let n = (buf.len() as u64).min(self.0).min(0x10000) as usize;
+                    buf[..n].copy_from_slice(&self.1[..n]);
+                    self.0 -= n as u64;
+                    Ok(n)
+                }
+            }
+            impl BufRead for Rep {
+                fn fill_buf(&mut self) -> io::Result<&[u8]> {
+                    let n = (self.1.len() as u64).min(self.0) as usize;
+                    Ok(&self.1[..n])
+                }
+                fn consume(&mut self, amt: usize) {
+                    self.0 -= amt as u64;
+                }
+            }
+            struct Tail(u64, Vec<u8>);
+            impl Write for Tail {
+                fn write(&mut self, buf: &[u8]) -> io::Result<usize> {
+                    self.0 += buf.len() as u64;
+                    self.1.extend_from_slice(&buf[buf.len().saturating_sub(64)..]);
+                    let cut = self.1.len().saturating_sub(64);
+                    self.1.drain(..cut);
+                    Ok(buf.len())
+                }
+                fn flush(&mut self) -> io::Result<()> {
+                    Ok(())
+                }
+            }
+            let n: u64 = get(&m, "n", "0").parse().unwrap();
+            let b: u8 = get(&m, "byte", "0").parse().unwrap();
+            let mut rd = Rep(n, [b; 0x10000]);
+            let mut out = Tail(0, Vec::new());
+            match lzma_rs::xz_compress(&mut rd, &mut out) {
+                Ok(()) => format!("ok total={} tail={}", out.0, hex(&out.1)),
+                Err(_) => "err total=0 tail=-".to_string(),
+            }
         }
         "raw_lzma" | "raw_lzma2" => {
             let is2 = op == "raw_lzma2";
